@@ -250,8 +250,10 @@ static pid_t vf_spawn(void (*worker)(int w, int W, uint64_t start), int w, uint6
         int lfd = open(lp, O_WRONLY | O_CREAT | (start ? O_APPEND : O_TRUNC), 0666);
         if (lfd >= 0) { dup2(lfd, 2); close(lfd); }
         vf_install_fatal();
+        double tw = vf_now();
         worker(w, vf_g.W, start);
         vf_g.sh[w].finished = 1;
+        fprintf(stderr, "worker %d finished after %.1f s\n", w, vf_now() - tw);
         fflush(NULL);
         _exit(0);
     }
